@@ -74,7 +74,7 @@ def build_input(trajs, how, dtype="int64"):
 DTYPES = ["int64", "int32", "int16", "int8", "uint8", "uint16", ">i4", ">i2"]   # the last two: non-native byte order
 # the function, called with keywords or positionally as documented (assigns, lag_time, max_n_states, sliding_window),
 # and the estimator that counts through it (MSM(...).fit(a).tcounts_, nothing trimmed)
-ENTRY_POINTS = ["function", "function", "positional", "MSM.fit"]
+ENTRY_POINTS = ["function", "function", "positional", "MSM.fit", "MSM.reconfigured"]
 
 
 @st.composite
@@ -134,12 +134,26 @@ def call(trajs, case, how=None):
         else:
             x = build_input(trajs, "padded", dtype)
     entry = case.get("entry", "function")
+    if case["max_n_states"] is not None:
+        # the requested size as a python int or as a numpy integer (`assigns.max() + 1` is one); same number either way
+        as_ = [int, np.int64, np.int32, np.intp][case.get("perm_seed", 0) % 4]
+        case = dict(case, max_n_states=as_(case["max_n_states"]))
     if entry == "positional":
         C = assigns_to_counts(x, case["lag"], case["max_n_states"], case["sliding"])
-    elif entry == "MSM.fit":
+    elif entry in ("MSM.fit", "MSM.reconfigured"):
         from enspara.msm import MSM, builders
-        m = MSM(lag_time=case["lag"], method=lambda C, **kw: (C, C, None), trim=False, sliding_window=case["sliding"],
-                max_n_states=case["max_n_states"])
+        if entry == "MSM.reconfigured":
+            # an estimator built for OTHER counting parameters and then set to the wanted ones (a lag scan re-using one
+            # object): what it counts follows its current parameters
+            m = MSM(lag_time=case["lag"] + 1 + case.get("perm_seed", 0) % 3, method=lambda C, **kw: (C, C, None), trim=False,
+                    sliding_window=not case["sliding"], max_n_states=None)
+            if case.get("perm_seed", 0) % 2:
+                m.set_params(lag_time=case["lag"], sliding_window=case["sliding"], max_n_states=case["max_n_states"])
+            else:
+                m.lag_time, m.sliding_window, m.max_n_states = case["lag"], case["sliding"], case["max_n_states"]
+        else:
+            m = MSM(lag_time=case["lag"], method=lambda C, **kw: (C, C, None), trim=False, sliding_window=case["sliding"],
+                    max_n_states=case["max_n_states"])
         if case["max_n_states"] is not None and not dtype.startswith("u"):
             # the same estimator object was first asked to count assignments that do NOT fit the requested number of
             # states (whatever it does with them - the function refuses them); the request itself is unchanged by that
@@ -157,7 +171,7 @@ def call(trajs, case, how=None):
                               sliding_window=case["sliding"])
     require(scipy.sparse.issparse(C) or isinstance(C, np.ndarray), "unexpected return type %s" % type(C))
     dense = np.array(C.toarray() if scipy.sparse.issparse(C) else C, copy=True)
-    if case.get("entry", "function") != "MSM.fit" and len(trajs) >= 1:
+    if not case.get("entry", "function").startswith("MSM.") and len(trajs) >= 1:
         # the returned matrix belongs to the caller: counting OTHER (fewer) assignments afterwards may not rewrite it
         sub = [t[: max(1, len(t) // 2)] for t in trajs[: max(1, len(trajs) // 2)] if len(t)]
         if sub:
@@ -325,6 +339,42 @@ def run_sticky(case):
 
 
 # --------------------------------------------------------------------------
+# one trajectory of 2**16 .. 2**18 frames: the pairs of a long trajectory are those of the whole trajectory (no
+# dependence on any internal block size), in both window modes and for lags that do not divide powers of two
+
+@st.composite
+def very_long_case(draw):
+    return {"L": draw(st.sampled_from([65535, 65536, 65537, 65543, 70001, 131072, 131075, 200003, 262147])),
+            "lag": draw(st.sampled_from([1, 2, 3, 5, 7, 10, 12, 100, 1000])), "sliding": draw(st.booleans()),
+            "n_states": draw(st.integers(2, 6)), "seed": draw(st.integers(0, 2 ** 31 - 1)),
+            "how": draw(st.sampled_from(["ragged", "padded"])), "dtype": draw(st.sampled_from(["int64", "int32", "int16"])),
+            "extra_short": draw(st.booleans()), "entry": draw(st.sampled_from(ENTRY_POINTS))}
+
+
+def run_very_long(case):
+    rng = np.random.RandomState(case["seed"])        # seed drawn by Hypothesis
+    n, lag, L = case["n_states"], case["lag"], case["L"]
+    t = rng.randint(0, n, size=L)
+    trajs = [t]
+    if case["extra_short"]:
+        trajs.append(rng.randint(0, n, size=int(rng.randint(1, 2 * lag + 3))))
+    R = np.zeros((n, n), dtype=np.int64)
+    for tr in trajs:
+        a = tr[:-lag] if case["sliding"] else tr[:-lag:lag]
+        b = tr[lag:] if case["sliding"] else tr[lag::lag]
+        b = b[:len(a)]
+        np.add.at(R, (a[:len(b)], b), 1)
+    c = {"lag": lag, "sliding": case["sliding"], "max_n_states": n, "how": case["how"], "dtype": case["dtype"],
+         "entry": case["entry"], "perm_seed": case["seed"]}
+    C = call([tr.tolist() for tr in trajs], c)
+    require(np.array_equal(C, R), "count matrix of one very long trajectory differs from the literal pair count",
+            L=L, lag=lag, sliding=case["sliding"], got_total=int(C.sum()), want_total=int(R.sum()),
+            first_diff=np.argwhere(C != R)[:3].tolist() if C.shape == R.shape else None)
+    return Info(L > 65536, ["very_long_L=%d" % L, "very_long_sliding=%s" % case["sliding"], "entry=" + case["entry"]],
+                key=[L, lag, case["sliding"], case["seed"], case["how"], case["entry"]])
+
+
+# --------------------------------------------------------------------------
 # one assignments object counted repeatedly: other lag time, then refilled in place with other assignments
 
 @st.composite
@@ -394,6 +444,8 @@ CLAUSES = [
     Clause("presentations", count_case(), run_presentations, quick=600, thorough=15000),
     Clause("exact_large", count_case(max_traj=30, max_len=200), run_exact, quick=0, thorough=4000),
     Clause("many_trajectories", many_case(), run_many, quick=16, thorough=160),
+    Clause("one_very_long_trajectory", very_long_case(), run_very_long, quick=24, thorough=240,
+           doc="one trajectory of 2^16..2^18 frames (optionally plus a short one), lags 1..1000, both window modes"),
     Clause("sticky_narrow_dtypes", sticky_case(), run_sticky, quick=24, thorough=400,
            doc="1..3 states, long sticky trajectories in int8..int32: single matrix entries exceed the assignments' dtype"),
     Clause("recount_same_object", recount_case(), run_recount, quick=600, thorough=12000,
